@@ -15,6 +15,7 @@ Props/C04.lean are proved about them:
                        "both lists empty" test
   rebuild / isSynced   the rebuild condition, the isSynced expression, the bookkeeping assignments after a build
   free / setIndexSets  `firstBuild = true`
+  setNeighbours / setIndexSets / constructor / setIncludeSelf: the argument replaces the stored configuration unconditionally
 
 C++ `%` is emitted as `Int.tmod` (truncation), `+ - *` on `Int`; nothing is re-interpreted over `Nat`.
 
@@ -454,6 +455,146 @@ def first_or_err(lst, what):
     return lst if lst else [TranslateError("%s not found" % what)]
 
 
+def top_statements(body):
+    """[(statement text without blanks, guarded)] of a function body at brace depth 0.  A statement that is controlled
+    by if/else/for/while/do/switch/try (with or without braces) is reported as one item with guarded=True; the
+    statements of a plain `{ ... }` block count as top-level statements."""
+    out = []
+    i, n = 0, len(body)
+
+    def skip_ws(j):
+        while j < n and body[j].isspace():
+            j += 1
+        return j
+
+    def simple_end(j):
+        depth = 0
+        while j < n:
+            c = body[j]
+            if c in "([{":
+                depth += 1
+            elif c in ")]}":
+                depth -= 1
+            elif c == ";" and depth == 0:
+                return j + 1
+            j += 1
+        return n
+
+    def stmt_end(j):
+        """end of the statement starting at j (controlled statements included)"""
+        j = skip_ws(j)
+        if j >= n:
+            return n
+        m = re.match(r"(if|for|while|switch)\b", body[j:])
+        if m:
+            k = skip_ws(j + m.end())
+            if k < n and body[k] == "(":
+                _, k = paren_arg(body, k)
+            k = stmt_end(k)
+            k2 = skip_ws(k)
+            if m.group(1) == "if" and re.match(r"else\b", body[k2:]):
+                k = stmt_end(k2 + 4)
+            return k
+        if re.match(r"(else|do|try)\b", body[j:]):
+            return stmt_end(j + re.match(r"(else|do|try)\b", body[j:]).end())
+        if body[j] == "{":
+            depth = 0
+            while j < n:
+                if body[j] == "{":
+                    depth += 1
+                elif body[j] == "}":
+                    depth -= 1
+                    if depth == 0:
+                        return j + 1
+                j += 1
+            return n
+        return simple_end(j)
+
+    while True:
+        i = skip_ws(i)
+        if i >= n:
+            break
+        if body[i] == "{":            # plain block: its statements are unconditional
+            e = stmt_end(i)
+            out.extend(top_statements(body[i + 1:e - 1]))
+            i = e
+            continue
+        e = stmt_end(i)
+        text = re.sub(r"\s+", "", body[i:e])
+        guarded = bool(re.match(r"(if|for|while|switch|else|do|try)\b", body[i:]))
+        if text.strip(";"):
+            out.append((text.rstrip(";"), guarded))
+        i = e
+    return out
+
+
+def unconditional(body, rx):
+    """True: a top-level unguarded statement matches rx; False: none does (the statement is missing, or only occurs
+    under a condition / in a loop)"""
+    return any(re.fullmatch(rx, t) for (t, guarded) in top_statements(body) if not guarded)
+
+
+def param_names(args):
+    """names of the parameters of a parameter list (default values dropped)"""
+    names = []
+    for a in split_args(args):
+        a = a.split("=")[0].strip()
+        m = re.search(r"(\w+)\s*$", a)
+        names.append(m.group(1) if m else "")
+    return names
+
+
+def inclass_body(src, name):
+    """(body, parameter names) of a member function defined inside the class: `name(...) {`"""
+    for m in re.finditer(r"(?<![\w:>.])%s\s*\(" % re.escape(name), src):
+        try:
+            args, j = paren_arg(src, m.end() - 1)
+        except TranslateError:
+            continue
+        rest = src[j:j + 40].lstrip()
+        if rest.startswith("const"):
+            rest = rest[5:].lstrip()
+        if rest.startswith("{"):
+            return body_after(src, j), param_names(args)
+    return "", []
+
+
+def member_params(src, name):
+    """parameter names of the first out-of-class definition `RemoteIndices<T,A>::name(...)`"""
+    m = re.search(r"RemoteIndices\s*<\s*T\s*,\s*A\s*>::%s\s*\(" % re.escape(name), src)
+    if not m:
+        return []
+    args, _ = paren_arg(src, m.end() - 1)
+    return param_names(args)
+
+
+def ctor_bodies(src):
+    """bodies of the out-of-class constructors `RemoteIndices<T,A>::RemoteIndices(...) : ... {`, keyed by whether
+    the constructor takes arguments"""
+    res = {}
+    for m in re.finditer(r"RemoteIndices\s*<\s*T\s*,\s*A\s*>::RemoteIndices\s*\(", src):
+        args, j = paren_arg(src, m.end() - 1)
+        k = j
+        # skip the member initialiser list: the body is the first `{` that follows a `)` or the parameter list at depth 0
+        depth = 0
+        while k < len(src):
+            c = src[k]
+            if c == "(":
+                depth += 1
+            elif c == ")":
+                depth -= 1
+            elif c == "{" and depth == 0:
+                break
+            elif c == ";" and depth == 0:
+                k = None
+                break
+            k += 1
+        if k is None or k >= len(src):
+            continue
+        res["args" if args.strip() else "default"] = (body_after(src, k - 1), param_names(args) if args.strip() else [])
+    return res
+
+
 def assignments(body, names):
     """normalised `lhs=rhs` for simple assignment statements to one of `names`, in source order"""
     res = []
@@ -598,6 +739,47 @@ def translate(repo):
            bool(re.search(r"(?<![\w.>])free\s*\(\s*\)\s*;", setsets)) if setsets else None)
     g.flag("setIndexSetsMarksFirstBuild", "setIndexSets() sets `firstBuild=true` itself",
            ("firstBuild=true" in assignments(setsets, names)) if setsets else None)
+    # ---- configuration calls: which hints / index sets / includeSelf value are in force afterwards -------------
+    # Facts about *unconditional top-level statements*: a call that has been put under a condition (or dropped) makes
+    # the fact false.  Forms the reader does not know leave the fact open (`none`, differential run only).
+    setnb, setnb_params = inclass_body(src, "setNeighbours")
+    ctors = ctor_bodies(src)
+    ss_params = member_params(src, "setIndexSets")
+
+    def replaces_hints(body, nbparam, allow_call):
+        """the function leaves exactly the hints of its neighbours argument `nbparam` in neighbourIds"""
+        if not body or not nbparam:
+            return None
+        nb = re.escape(nbparam)
+        if allow_call and unconditional(body, r"(this->)?setNeighbours\(%s\)" % nb):
+            return True
+        if unconditional(body, r"neighbourIds=.*\b%s\b.*" % nb):
+            return True
+        if unconditional(body, r"neighbourIds\.insert\(%s\.begin\(\),%s\.end\(\)\)" % (nb, nb)):
+            return unconditional(body, r"neighbourIds\.clear\(\)")
+        if "setNeighbours" in body or "neighbourIds" in body:
+            return False    # mentioned, but not as an unconditional statement: conditional / partial update
+        return None
+
+    g.flag("setNeighboursReplaces", "setNeighbours() first clears neighbourIds, then inserts the whole argument, unconditionally",
+           replaces_hints(setnb, setnb_params[0] if len(setnb_params) == 1 else "", False))
+    g.flag("setIndexSetsReplacesHints", "setIndexSets() hands its neighbours argument (also an empty one) to setNeighbours, unconditionally",
+           replaces_hints(setsets, ss_params[3] if len(ss_params) == 4 else "", True))
+    cb, cp = ctors.get("args", ("", []))
+    g.flag("ctorSetsHints", "the five-argument constructor hands its neighbours argument to setNeighbours, unconditionally",
+           replaces_hints(cb, cp[3] if len(cp) == 5 else "", True))
+    if setsets and len(ss_params) == 4:
+        both = (unconditional(setsets, r"source_=&%s" % re.escape(ss_params[0])) and
+                unconditional(setsets, r"target_=&%s" % re.escape(ss_params[1])))
+        commset = unconditional(setsets, r"comm_=%s" % re.escape(ss_params[2]))
+    else:
+        both = commset = None
+    g.flag("setIndexSetsSetsBothSets", "setIndexSets() stores both index sets: `source_ = &source; target_ = &destination;`", both)
+    g.flag("setIndexSetsSetsComm", "setIndexSets() stores the communicator: `comm_ = comm;`", commset)
+    setincl = one("setIncludeSelf")
+    si_params = member_params(src, "setIncludeSelf")
+    g.flag("setIncludeSelfAssigns", "setIncludeSelf(b) stores its argument: `includeSelf=b;`",
+           unconditional(setincl, r"(this->)?includeSelf=%s" % re.escape(si_params[0])) if (setincl and len(si_params) == 1 and si_params[0]) else None)
     return [("DuneVerif/Gen/C04.lean", g.text())]
 
 
